@@ -1,7 +1,201 @@
 import OpacusLean.Lemmas.PrvEps
-/-! # C07 — the PRV accountant's discrete algebra -/
+import OpacusLean.Lemmas.PrvRoll
+import OpacusLean.Lemmas.PrvTree
+import OpacusLean.Lemmas.PrvDomain
+/-! # C07 — the PRV accountant's discrete algebra
+
+What is proved here is the index / shift / inversion algebra of
+`opacus/accountants/analysis/prv/{domain,compose,prvs}.py` on the executable model
+`OpacusLean/Model/Prv.lean` (the same definitions the driver runs against the real code).
+
+**Partial (stated plainly).**  The property C07 says the reported epsilon brackets the *true* epsilon of
+the composed Poisson-subsampled Gaussian within `eps_error`.  The step from the continuous privacy-loss
+distribution to the truncated, mean-matched discrete one (Gopi–Lee–Wutschitz 2021, Thm 5.5 / Rem 5.6) is
+**cited, not proved**.  Full statement (not proved):
+
+  -- theorem prv_brackets_truth : ∀ history in range, ∀ δ ε_err,
+  --   ε_true(δ) ≤ get_epsilon δ ε_err ∧ get_epsilon δ ε_err ≤ ε_true(δ - 2δ_err) + 2 ε_err
+
+What Lean carries: given the discretised pmfs, (1) self-composition + roll computes the distribution of
+the n-fold sum on the same grid (aliased mod N) with `t = 0` staying at index `N/2 - 1` for both
+parities of n; (2) `_compose_two` keeps the same centring and is commutative; (3) the tree cannot create
+mass; (4) domain shifts add up to `Σ n_i·shift_i`; (5) `find_epsilon` inverts the discrete hockey-stick
+divergence exactly and lands in the `searchsorted` cell; (6) the triple is ordered.
+"Centre bin" = index `N/2 - 1` (not `N/2`): `aligned_domain_zero_bin` shows this is where `create_aligned`
+puts `t = 0`. -/
 namespace Opacus.C07
-open Opacus.Prv Finset
+open Opacus.Prv Finset Polynomial
+
+/-! ## `Domain.create_aligned` -/
+
+/-- `PRVAccountant._get_domain` calls `create_aligned(-L, L, mesh)`: the result has even size, grid step
+exactly `mesh`, and `t = 0` at index `size/2 - 1`. -/
+theorem aligned_domain_zero_bin (tol L dt : ℝ) (hdt : 0 < dt) (htol : 0 < tol) (hL : 0 ≤ L) :
+    ∃ d : Dom ℝ, createAligned tol (-L) L dt = .ok d ∧ d.size % 2 = 0 ∧ 2 ≤ d.size ∧ d.dt = dt ∧
+      d.tMin ≤ -L ∧ L ≤ d.tMax ∧ d.shifts = 0 ∧ d.ts (d.size / 2 - 1) = 0 := by
+  obtain ⟨d, h, hs, hmin, hmax, hsh, hdt', h0⟩ := createAligned_symm tol L dt hdt htol hL
+  refine ⟨d, h, by omega, by omega, hdt', ?_, ?_, hsh, h0⟩
+  · rw [hmin]
+    have := Int.le_ceil (L / dt)
+    have h2 : L / dt * dt = L := by field_simp
+    nlinarith
+  · rw [hmax]
+    have := Int.le_ceil (L / dt)
+    have h2 : L / dt * dt = L := by field_simp
+    nlinarith
+
+/-! ## `_compose_fourier` -/
+
+section compose
+variable {R : Type} [CommRing R]
+
+/-- **self_compose_roll_correct** (∀ even size `N`, ∀ `n ≥ 1`, both parities).  `_compose_fourier(d, n)`
+succeeds and, with `c = N/2 - 1` the index of `t = 0` and `P = Σ_i pmf[i] Xⁱ`:
+entry `j` of the result is the total mass of the n-fold **linear** convolution `Pⁿ` at the indices `s`
+whose offset from the n-fold centre, `s - n·c`, is congruent mod `N` to `j - c`
+(written without subtraction: `s + c ≡ j + n·c`).  The domain keeps its size and is shifted by
+`(n-1)·shifts`, so that the recorded total shift is `n·shifts`. -/
+theorem self_compose_roll_correct (d : DPrv R) (n : ℕ) (hlen : d.pmf.size = d.dom.size)
+    (hN : d.pmf.size % 2 = 0) (hN0 : 0 < d.pmf.size) (hn : 1 ≤ n) :
+    ∃ out, composeFourier d n = .ok out ∧ out.pmf.size = d.pmf.size ∧
+      out.dom.size = d.dom.size ∧ out.dom.shifts = (n : R) * d.dom.shifts ∧
+      out.dom.tMin = d.dom.tMin + ((n : R) - 1) * d.dom.shifts ∧
+      out.dom.tMax = d.dom.tMax + ((n : R) - 1) * d.dom.shifts ∧
+      ∀ j, j < d.pmf.size → out.pmf.getD j 0 =
+        ∑ s ∈ range (n * (d.pmf.size - 1) + 1),
+          if (s + (d.pmf.size / 2 - 1)) % d.pmf.size = (j + n * (d.pmf.size / 2 - 1)) % d.pmf.size
+          then (toPoly d.pmf ^ n).coeff s else 0 := by
+  refine ⟨⟨roll (cpow d.pmf n) (rollAmount (cpow d.pmf n).size n),
+    d.dom.shiftRight (d.dom.shifts * (((n : ℤ) - 1 : ℤ) : R))⟩, ?_, ?_, rfl, ?_, ?_, ?_, ?_⟩
+  · unfold composeFourier
+    rw [if_neg (not_not.mpr hlen), if_neg (not_not.mpr hN)]
+  · simp only [roll_size, cpow_size]
+  · simp only [Dom.shiftRight]; push_cast; ring
+  · simp only [Dom.shiftRight]; push_cast; ring
+  · simp only [Dom.shiftRight]; push_cast; ring
+  · intro j hj
+    exact roll_cpow_getD d.pmf n hN hN0 hn j hj
+
+/-- no aliasing: if the n-fold linear convolution lives inside the window of `N` bins around its centre
+`n·c`, the result *is* that window: `out[j] = Pⁿ[j + (n-1)c]`, i.e. offset `j - c` ↦ offset `j - c`. -/
+theorem self_compose_no_wrap (d : DPrv R) (n : ℕ) (hlen : d.pmf.size = d.dom.size)
+    (hN : d.pmf.size % 2 = 0) (hN0 : 0 < d.pmf.size) (hn : 1 ≤ n)
+    (hwin : ∀ s, (toPoly d.pmf ^ n).coeff s ≠ 0 →
+      (n - 1) * (d.pmf.size / 2 - 1) ≤ s ∧ s < (n - 1) * (d.pmf.size / 2 - 1) + d.pmf.size) :
+    ∃ out, composeFourier d n = .ok out ∧
+      ∀ j, j < d.pmf.size → out.pmf.getD j 0 = (toPoly d.pmf ^ n).coeff (j + (n - 1) * (d.pmf.size / 2 - 1)) := by
+  obtain ⟨out, h, _, _, _, _, _, hval⟩ := self_compose_roll_correct d n hlen hN hN0 hn
+  refine ⟨out, h, fun j hj => ?_⟩
+  rw [hval j hj]
+  set c := d.pmf.size / 2 - 1
+  set e := (n - 1) * c with he
+  have hnc : n * c = e + c := by
+    rw [he]; conv_lhs => rw [show n = (n - 1) + 1 by omega]
+    rw [add_mul, one_mul]
+  rw [Finset.sum_eq_single (j + e)]
+  · rw [if_pos (by rw [hnc]; congr 1; omega)]
+  · intro s _ hne
+    by_cases hc : (toPoly d.pmf ^ n).coeff s = 0
+    · rw [hc]; split_ifs <;> rfl
+    · obtain ⟨h1, h2⟩ := hwin s hc
+      rw [if_neg]
+      intro hcond
+      apply hne
+      obtain ⟨s', rfl⟩ : ∃ s', s = e + s' := ⟨s - e, by omega⟩
+      have hs' : s' < d.pmf.size := by omega
+      have : s' ≡ j [MOD d.pmf.size] := by
+        have h3 : s' + (e + c) ≡ j + (e + c) [MOD d.pmf.size] := by
+          unfold Nat.ModEq
+          rw [hnc] at hcond
+          rw [show s' + (e + c) = e + s' + c by omega, hcond]
+        exact Nat.ModEq.add_right_cancel' _ h3
+      have := Nat.ModEq.eq_of_lt_of_lt this hs' hj
+      omega
+  · intro hnot
+    have hdeg := natDegree_toPoly_pow_lt d.pmf hN0 n
+    have : (toPoly d.pmf ^ n).coeff (j + e) = 0 :=
+      coeff_eq_zero_of_natDegree_lt (lt_of_lt_of_le hdeg (by
+        have := Finset.mem_range.not.mp hnot; omega))
+    rw [this]; split_ifs <;> rfl
+
+/-! ## `_compose_two` -/
+
+theorem ext_getD {a b : Array R} (hs : a.size = b.size) (h : ∀ j, a.getD j 0 = b.getD j 0) : a = b := by
+  apply Array.ext hs
+  intro i h1 h2
+  have := h i
+  simpa [Array.getD, h1, h2] using this
+
+/-- `convolve(l, r, mode="same")` for two pmfs on the same even grid keeps `t = 0` at index `c = N/2-1`:
+entry `j` is the linear convolution at `j + c` (offsets add: `(i₁-c) + (i₂-c) = j-c`). -/
+theorem compose_two_centre (l r : DPrv R) (hs : r.pmf.size = l.pmf.size) (hN : l.pmf.size % 2 = 0)
+    (j : ℕ) (hj : j < l.pmf.size) :
+    (composeTwo l r).pmf.getD j 0 = (toPoly l.pmf * toPoly r.pmf).coeff (j + (l.pmf.size / 2 - 1)) ∧
+    (composeTwo l r).pmf.size = l.pmf.size ∧
+    (composeTwo l r).dom.shifts = l.dom.shifts + r.dom.shifts := by
+  refine ⟨?_, convSame_size _ _, rfl⟩
+  simp only [composeTwo]
+  rw [convSame_getD, if_pos hj, hs]
+  congr 2
+  omega
+
+/-- **compose_two_comm** (equal sizes): the pmf of `_compose_two` does not depend on the order -/
+theorem compose_two_comm (l r : DPrv R) (hs : r.pmf.size = l.pmf.size) :
+    (composeTwo l r).pmf = (composeTwo r l).pmf := by
+  simp only [composeTwo]
+  apply ext_getD (by rw [convSame_size, convSame_size, hs])
+  intro j
+  rw [convSame_getD, convSame_getD, hs, mul_comm]
+
+/-- …and neither does the domain when both come from the same aligned grid -/
+theorem compose_two_comm_domain (lo hi : R) (size : ℕ) (l r : DPrv R) (h : SameBase lo hi size [l, r]) :
+    (composeTwo l r).dom = (composeTwo r l).dom := by
+  obtain ⟨l1, l2, l3⟩ := h l (by simp)
+  obtain ⟨r1, r2, r3⟩ := h r (by simp)
+  simp only [composeTwo, Dom.shiftRight, l1, l2, l3, r1, r2, r3]
+  congr 1 <;> ring
+
+/-! ## the convolution tree and `compose_heterogeneous` -/
+
+/-- **domain_shift_add**: if every discretised PRV lives on the common aligned grid `[lo, hi]` moved by
+its own mean shift, `compose_heterogeneous` returns the same grid moved by `Σ_i n_i · shift_i` —
+whatever the order in which the tree (pop-last / pairwise) combined them. -/
+theorem domain_shift_add (lo hi : R) (size : ℕ) (ds : List (DPrv R)) (ns : List ℕ) (r : DPrv R)
+    (hb : SameBase lo hi size ds) (h : composeHeterogeneous ds ns = .ok r) :
+    r.dom.shifts = weightedShift ds ns ∧ r.dom.tMin = lo + weightedShift ds ns ∧
+      r.dom.tMax = hi + weightedShift ds ns ∧ r.dom.size = size := by
+  unfold composeHeterogeneous at h
+  split_ifs at h
+  split at h
+  · cases h
+  · rename_i cs hcs
+    obtain ⟨hb', hsum⟩ := fourierAll_domain lo hi size ds ns cs hcs hb
+    have := tree_domain lo hi size _ cs r h hb'
+    rwa [hsum] at this
+
+end compose
+
+section massSec
+variable {R : Type} [CommRing R] [LinearOrder R] [IsStrictOrderedRing R]
+
+/-- `mode='same'` keeps `a.size` consecutive bins of the full convolution; what it cuts off is exactly
+the head and the tail: mass(same) + head + tail = mass(l)·mass(r) -/
+theorem compose_two_mass (a b : Array R) (M : ℕ) (hM : (toPoly a * toPoly b).natDegree < M)
+    (hwin : (b.size - 1) / 2 + a.size ≤ M) :
+    mass (convSame a b)
+      + ∑ s ∈ range ((b.size - 1) / 2), (toPoly a * toPoly b).coeff s
+      + ∑ s ∈ Ico ((b.size - 1) / 2 + a.size) M, (toPoly a * toPoly b).coeff s
+      = mass a * mass b := compose_two_mass_exact a b M hM hwin
+
+/-- **tree_mass**: on non-negative pmfs the convolution tree never creates mass: the result is
+non-negative and its total mass is at most the product of the masses (equality up to the truncated
+tails accounted for in `compose_two_mass`). -/
+theorem tree_mass (l : List (DPrv R)) (r : DPrv R) (hn : ∀ d ∈ l, ∀ j, 0 ≤ d.pmf.getD j 0)
+    (h : composeConvolutionTree l = .ok r) :
+    (∀ j, 0 ≤ r.pmf.getD j 0) ∧ mass r.pmf ≤ (l.map (fun d => mass d.pmf)).prod :=
+  tree_mass_le l.length l r h hn
+
+end massSec
 
 /-! ## `compute_epsilon` -/
 
